@@ -155,6 +155,7 @@ package geom
 //@   requires [nonnil] b != nil
 //@   ensures [nil_noop] b2 == nil ==> biteq(*b, old(*b))
 //@   ensures [join_min] b2 != nil && old(noNaNBox(*b) && noNaNBox(*b2)) ==> b.Min.X == goMin(old(b.Min.X), old(b2.Min.X)) && b.Min.Y == goMin(old(b.Min.Y), old(b2.Min.Y))
+//@   ensures [join_exact] b2 != nil ==> biteq(*b, joinB(old(*b), old(*b2)))
 //@   ensures [join_max] b2 != nil && old(noNaNBox(*b) && noNaNBox(*b2)) ==> b.Max.X == goMax(old(b.Max.X), old(b2.Max.X)) && b.Max.Y == goMax(old(b.Max.Y), old(b2.Max.Y))
 //@   modifies *b
 
@@ -1269,3 +1270,48 @@ package geom
 //@   loop 2 `for i, pp := range pTemp`
 //@     invariant [closed_rings] forall k int :: 0 <= k && k < len(pTemp) ==> len(pTemp[k]) >= 2
 //@     invariant [pieces] 0 <= #2 && #2 <= len(pTemp) && fresh(o) && !sameObj(o, pTemp) && len(o) == len(pTemp) && (forall k int :: 0 <= k && k < #2 ==> len(o[k]) == len(pTemp[k]) - 1 && sameObj(o[k], pTemp[k]))
+
+//@ -- ------------------------------------------------- C04: multi-member envelopes
+//@ func (ml MultiLineString) Bounds
+//@   prop C04
+//@   mode xreal
+//@   ensures [env] fresh(result) && biteq(*result, foldLines(emptyB(), ml, len(ml)))
+//@   modifies nothing
+//@   loop 1 `for _, l := range ml`
+//@     invariant [fold] 0 <= #1 && #1 <= len(ml) && fresh(b) && biteq(*b, foldLines(emptyB(), ml, #1))
+
+//@ func (mp MultiPolygon) Bounds
+//@   prop C04
+//@   mode xreal
+//@   ensures [env] fresh(result) && biteq(*result, foldPolys(emptyB(), mp, len(mp)))
+//@   modifies nothing
+//@   loop 1 `for _, polygon := range mp`
+//@     invariant [fold] 0 <= #1 && #1 <= len(mp) && fresh(b) && biteq(*b, foldPolys(emptyB(), mp, #1))
+
+//@ spec glen(g Geom) int
+//@ interface Geom.Len
+//@   prop C04
+//@   requires [recv] nonNilBounds(self)
+//@   defines [flat_len] result == glen(self)
+//@   modifies nothing
+//@ interface Geom.Points
+//@   prop C04
+//@   requires [recv] nonNilBounds(self)
+//@   ensures [iterator] result != nil
+//@   modifies nothing
+//@ spec gcLenTo(gc []Geom, k int) int decreases k = k <= 0 ? 0 : gcLenTo(gc, k-1) + glen(gc[k-1])
+
+//@ func (gc GeometryCollection) Len
+//@   prop C04
+//@   requires [members] forall k int :: 0 <= k && k < len(gc) ==> typeof(gc[k]) != nil && nonNilBounds(gc[k])
+//@   ensures [sum] result == gcLenTo(gc, len(gc))
+//@   modifies nothing
+//@   loop 1 `for _, g := range gc`
+//@     invariant [sum] 0 <= #1 && #1 <= len(gc) && i == gcLenTo(gc, #1)
+
+//@ func (gc GeometryCollection) Points
+//@   prop C04
+//@   mode ufloat
+//@   requires [members] forall k int :: 0 <= k && k < len(gc) ==> typeof(gc[k]) != nil && nonNilBounds(gc[k])
+//@   ensures [iterator] result != nil
+//@   modifies nothing
